@@ -68,13 +68,13 @@ def r_validate_first(ctx: Ctx, rule: str, names=ENTRY_POINTS + ("pool_size.sette
                        detail="" if bad is None else f"{bad[1]} at {bad[0].where()} happens before the request is rejected with {x.tok[0].rpartition('.')[2]}")
     rep.floor(rule, "raising exits of the entry points", n_exits, floor or 3 * len(names))
     # the name generator that runs before validation is effect-free
-    for f in ctx.pool_funcs("_generate_group_name", required=False):
+    for f in (ctx.pool_funcs("_generate_group_name", required=False) if any(n in names for n in ("map", "starmap", "doublestarmap")) else []):
         eff = [e for e in ctx.func_trans_effects(f) if e.kind in WRITE_KINDS and e.path.startswith("self")]
         users = ctx.nodes(f, lambda n: n.user)
         rep.ob(rule, "_generate_group_name (runs before validation in map/starmap/doublestarmap) has no effect on the pool and runs no user code",
                not eff and not users, func=f, construct=eff[0].node if eff else "pure")
     # arg_iter untouched by the synchronous part
-    for name in ("_map", "map", "starmap", "doublestarmap"):
+    for name in [x for x in ("_map", "map", "starmap", "doublestarmap") if x in names]:
         for f in ctx.pool_funcs(name, required=False):
             for n in ctx.nodes(f, lambda n: n.op == "iter" and n.user):
                 rep.ob(rule, "the argument iterable is not iterated by the synchronous part of the request", False, node=n)
